@@ -147,6 +147,12 @@ class HyReprModel(Model):
         if src == "_seen.discard":
             st.globals["_seen"] = z3.SetDel(st.globals["_seen"], args[0])
             return [Path(st, "normal", NONE)]
+        if src == "_seen.clear":
+            st.globals["_seen"] = z3.EmptySet(z3.IntSort())
+            return [Path(st, "normal", NONE)]
+        if src == "_seen.remove":
+            st.globals["_seen"] = z3.SetDel(st.globals["_seen"], args[0])       # (KeyError path not modelled: only reached for a member)
+            return [Path(st, "normal", NONE)]
         if isinstance(f, Obj) and f.kind == "printer":
             # callee contract of a registered printer (it reaches the state only through hy_repr itself):
             #   requires  Inv(_seen, _quoting)
@@ -162,7 +168,8 @@ class HyReprModel(Model):
 
     def getattr(self, ex, st, obj, name, node):
         src = ast.unparse(node)
-        if src in ("_registry.get", "_seen.add", "_seen.discard", "hy.models", "hy.models.Object", "hy.models.Keyword"):
+        if src in ("_registry.get", "_seen.add", "_seen.discard", "_seen.clear", "_seen.remove", "hy.models", "hy.models.Object",
+                   "hy.models.Keyword"):
             return Obj("attr:" + src)
         return NotImplemented
 
